@@ -29,6 +29,8 @@ type CLICase struct {
 	// ManyIDs > 0: that many tile matrices in one run (more than any batch size or CPU count one would pick),
 	// with features sized for every one of them
 	ManyIDs int `json:"many_ids,omitempty"`
+	// OddPath: the target lives under, and is named with, characters that are special in URIs, globs or format strings
+	OddPath string `json:"odd_path,omitempty"`
 }
 
 func (c *CLICase) JSON() []byte { b, _ := json.Marshal(c); return b }
@@ -174,6 +176,9 @@ func buildCLIPlan(cc *CLICase) *cliPlan {
 		pl.targetRel = filepath.Join("sub.dir", nm)
 	default:
 		pl.targetRel = filepath.Join("a", "b_c", nm)
+	}
+	if cc.OddPath != "" {
+		pl.targetRel = filepath.Join(cc.OddPath, "out "+cc.OddPath+fw.Pick(rng, []string{".gpkg", "", ".v2.gpkg"}))
 	}
 	return pl
 }
@@ -474,6 +479,9 @@ func judgeCLI(c *fw.Ctx, cc *CLICase) {
 		c.Rec.Violation("wrong-target-files", "", fmt.Sprintf("%s: files created %v, expected exactly %v", desc, after, want), cj, detail)
 		return
 	}
+	if cc.OddPath != "" {
+		c.Rec.Count("target_path_with_characters_special_in_uris_globs_formats")
+	}
 	c.Rec.Count("dots_in_target_name:" + strconv.Itoa(strings.Count(filepath.Base(pl.targetRel), ".")))
 	if strings.Contains(pl.targetRel, "/") {
 		c.Rec.Count("target_in_subdirectory")
@@ -626,6 +634,14 @@ func init() {
 			if c.Idx%10 == 3 {
 				cc.ManyIDs = 9 + int(cc.Seed>>7%8) // 9..16 target files
 			}
+			if c.Idx%6 == 1 {
+				cc.OddPath = oddNames[int(cc.Seed>>11)%len(oddNames)]
+				if strings.Contains(cc.OddPath, "%") {
+					// not for the tool: it builds the target names with a format string made from the path, so a percent sign
+					// is outside what it supports (and outside the property's "safe alphabet"); the library (C12) takes them
+					cc.OddPath = "run#7 [v" + strconv.Itoa(int(cc.Seed>>13)%9) + "]"
+				}
+			}
 			if c.Tier == "thorough" && c.Idx%5 == 0 && os.Getenv("VERIF_TEXEL_RACE_BIN") != "" {
 				cc.Race = true
 			}
@@ -654,7 +670,7 @@ func init() {
 		},
 		Rule: "the real binary (built from /repo with -tags verif) on generated sources: 1-3 tables (POLYGON/MULTIPOLYGON tables with generated polygons placed in NetherlandsRDNewQuad, WebMercatorQuad, EuropeanETRS89_LAEAQuad or a synthetic dyadic set loaded through hook H2; POINT/LINESTRING tables), 0-40 features, INTEGER/REAL/TEXT attributes and (1 column in 5) DATE/DATETIME/TIMESTAMP attributes with and without UTC offsets compared as instants, 1-3 ids in random order (every 10th run 9-16 ids with feature sizes spread over all requested levels), page sizes 1/2/3/1000, all flag combinations (every fourth run configured through the documented environment variables instead of the command line), target names with 0-2 dots in sub-directories, pre-existing target files with sentinel tables/rows when overwrite is on; oracle: exit status, exactly the files <name>_<id><ext>, per file the same tables as the source, polygon tables row by row = attributes + what snap.SnapPolygon (called in-process) returns for that id (feature omitted when nothing, several polygons -> MULTIPOLYGON, parts merged), other tables row-for-row copies, nothing of the planted file left; outside-grid polygon without the ignore flag -> non-zero exit; built-in non-quadtree sets -> non-zero exit and no target file; non-trivial = run whose polygon tables produced rows (or a demanded failure)",
 		Required: func(t string) []string {
-			r := []string{"configured_through_environment_variables", "polygon_tables_compared", "copied_tables_compared", "class:overwrite_of_planted_target", "features_omitted_at_some_matrix", "polygon_delivered_as_multipolygon", "target_in_subdirectory", "rows_compared", "tables_compared_with_DATE/DATETIME/TIMESTAMP_columns(compared_as_instants)", "non_empty_polygon_tables_in_runs_with_9_to_16_tile_matrices"}
+			r := []string{"configured_through_environment_variables", "polygon_tables_compared", "copied_tables_compared", "class:overwrite_of_planted_target", "features_omitted_at_some_matrix", "polygon_delivered_as_multipolygon", "target_in_subdirectory", "rows_compared", "target_path_with_characters_special_in_uris_globs_formats", "tables_compared_with_DATE/DATETIME/TIMESTAMP_columns(compared_as_instants)", "non_empty_polygon_tables_in_runs_with_9_to_16_tile_matrices"}
 			if t == "thorough" {
 				r = append(r, "class:non_quadtree_set", "class:outside_polygon_without_ignore", "class:outside_polygon_ignored", "dots_in_target_name:0", "dots_in_target_name:2")
 			}
